@@ -94,7 +94,8 @@ class Interp:
             elif s == Int:
                 c = v.e != 0
             elif s == Val:
-                raise Unsupported("truthiness of an opaque value")
+                from .terms import truthyV
+                c = truthyV(v.e)
             else:
                 raise Unsupported(f"truthiness of sort {s}")
             if self.pure:
@@ -117,6 +118,9 @@ class Interp:
                 return v.e
             if v.sort() == Int:
                 return v.e != 0
+            if v.sort() == Val:
+                from .terms import truthyV
+                return truthyV(v.e)
             raise Unsupported("formula of non-bool")
         if isinstance(v, (bool, int)) or v is None:
             return z3.BoolVal(bool(v))
@@ -921,6 +925,8 @@ class Interp:
                         f = is_VNone(other.e)
                     else:
                         f = z3.BoolVal(False)
+                elif isinstance(other, ModelObj) and hasattr(other, "m_is_none"):
+                    f = other.m_is_none(self)
                 else:
                     f = z3.BoolVal(other is None)
             elif isinstance(a, Sym) or isinstance(b, Sym):
